@@ -1,13 +1,16 @@
 (* Model of configuration acceptance (C15, part 2).  Definitions only.
 
-   [accept c frames] follows PerceptionEvaluationConfig.__init__ on the dictionary [c] (an
+   [accept sw c frames] follows PerceptionEvaluationConfig.__init__ on the dictionary [c] (an
    association list from keys to Python values) and the frame id(s) [frames], in the order the
    Python code runs: _check_tasks, _extract_label_params, LabelConverter, _extract_params
    (set_target_lists, range-kind selection, per-label filter thresholds, mandatory
    min_point_numbers), frame-id parsing and the 3D frame-count check, MetricsScoreConfig.
    The result is the normalised per-label lists, or the class of the exception raised.
+   [sw] holds the two defect switches of DESIGN.md section 2.3 (findings F7, F8): [current] is the
+   code as it is, a switch set to true is the documented rejection.
    The supported-task list, the task enum with its is_3d set, the frame-id / matching-policy
-   parsers and the label enums come from Gen/ (regenerated from the source on every run).
+   parsers and the label enums come from Gen/ (regenerated from the source on every run); the key
+   tables [read_keys] / [metric_keys] are compared with the source by the config_keys correspondence.
 
    [critical_accept] / [passfail_accept] follow CriticalObjectFilterConfig / PerceptionPassFailConfig. *)
 From Coq Require Import String List Bool Arith.
